@@ -1,6 +1,7 @@
 """C01, C02, C04 (sequential histories), C09, C10: executions of the real compiled shell, driven by command scripts,
 validated by ShellRuntimeTrace.tla; plus TLC-generated behaviours of ShellRuntimeMC.tla replayed on the compiled shell."""
 import json
+import os
 import random
 import re
 
@@ -178,6 +179,8 @@ def cmd_line(cmd):
         return 'construct ' + ''.join('1' if b else '0' for b in cmd['bits'])
     if c in ('bind', 'unbind'):
         return f'{c} {cmd["port"]} {cmd["event"]} {cmd["client"] or "-"}'
+    if c == 'connect':
+        return f'connect {cmd["port"]} {cmd["client"] or "-"}'
     if c == 'unbind-comp':
         return f'unbind-comp {cmd["port"]} {cmd["event"]}'
     if c == 'register':
@@ -208,9 +211,19 @@ def setup_cmds(route, origin, rng, clients):
     cmds = [{'c': 'construct', 'bits': valid_bits(origin, rng)}]
     for cid in clients:
         cmds.append({'c': 'register', 'id': cid})
-    cmds.append({'c': 'bind', 'port': '*', 'event': '*', 'client': ''})
-    for cid in clients:
-        cmds.append({'c': 'bind', 'port': '*', 'event': '*', 'client': cid})
+    if rng.random() < 0.4:
+        # the user ties port objects of his own to every boundary port with ConnectPorts and talks through those
+        ports = []
+        for rte in route:
+            if (rte['port'], rte['mc']) not in ports:
+                ports.append((rte['port'], rte['mc']))
+        for port, is_mc in ports:
+            for cid in (clients if is_mc else ['']):
+                cmds.append({'c': 'connect', 'port': port, 'client': cid})
+    else:
+        cmds.append({'c': 'bind', 'port': '*', 'event': '*', 'client': ''})
+        for cid in clients:
+            cmds.append({'c': 'bind', 'port': '*', 'event': '*', 'client': cid})
     cmds.append({'c': 'final'})
     return cmds
 
@@ -218,7 +231,8 @@ def setup_cmds(route, origin, rng, clients):
 def event_script(route, origin, rng, length, grant, mc_focus=False):
     """A random sequence of events after a complete setup; the queue is drained at the end."""
     has_mc = any(r['mc'] for r in route)
-    clients = ['A', 'B', 'C'][:rng.randint(1, 3)] if has_mc else []
+    # registration order is not alphabetical: the selector keeps its clients in an ordered map
+    clients = rng.sample(['A', 'B', 'C'], rng.randint(1, 3)) if has_mc else []
     cmds = setup_cmds(route, origin, rng, clients)
     counter = [0]
     token = [10]
@@ -304,7 +318,7 @@ def binding_script(route, origin, rng):
     """C10: everything bound / exactly one required binding never made / one component handler missing /
     registration after final construction.  The omitted binding is never touched (not bound and unbound again)."""
     has_mc = any(r['mc'] for r in route)
-    clients = ['A', 'B'][:rng.randint(1, 2)] if has_mc else []
+    clients = rng.sample(['B', 'A'], rng.randint(0, 2)) if has_mc else []       # also: no client at all
     cmds = [{'c': 'construct', 'bits': valid_bits(origin, rng)}]
     for cid in clients:
         cmds.append({'c': 'register', 'id': cid})
@@ -327,7 +341,8 @@ def binding_script(route, origin, rng):
         cmds.append({'c': 'unbind-comp', 'port': rte['port'], 'event': rte['event']})
         cmds.append({'c': 'final'})
     else:
-        cmds.append({'c': 'final'})
+        # (what a SECOND call after a successful final construction does - nothing, or an error - is not part of the
+        # property and is not exercised)
         cmds.append({'c': 'final'})
     cmds.append({'c': 'register', 'id': 'Z'})
     cmds.append({'c': 'bind', 'port': '*', 'event': '*', 'client': 'Y'})
@@ -379,7 +394,7 @@ def classify(evt, expected):
     c = evt['cmd']['c']
     if c == 'construct':
         return 'C09'
-    if c in ('final', 'bind', 'unbind', 'register', 'unbind-comp'):
+    if c in ('final', 'bind', 'unbind', 'register', 'unbind-comp', 'connect'):
         return 'C10'
     obs = evt['obs']
     if not isinstance(expected, dict):
@@ -410,7 +425,7 @@ class Engine:
     def __init__(self, chk, pid, known_h):
         self.chk, self.pid, self.known_h = chk, pid, known_h
         # the sealing of the selector by a failed final construction is C10's business only; elsewhere the shipped rule
-        self.known_r = known_r() if pid == 'C10' else True
+        self.known_r = known_r()
         self.other = {}
 
     def programs(self, rng, count, want_mc=None):
@@ -479,13 +494,45 @@ class Engine:
         return traces
 
     def validate(self, traces):
-        slim = [{'id': t['id'], 'cx': t['cx'], 'events': t['events'], 'decls': t['prog'].decls, 'cfg': t['prog'].cfg}
-                for t in traces]
+        """Two passes.  (1) against the rule the properties state (no known finding assumed); (2) the traces that pass 1
+        rejects, against the shipped rule of the LISTED known findings (H: Deselect ignores its argument, R: a failed final
+        construction seals the selector).  A trace only the shipped rule explains is an occurrence of that finding; a tree
+        on which the finding is repaired passes in pass 1 and prints nothing."""
         by_id = {t['id']: t for t in traces}
-        rejected = core.validate_traces(self.chk, 'ShellRuntimeTrace', 'ShellRuntimeTrace.cfg', slim, batch=300)
+
+        def slim(trs, **flags):
+            return [{'id': t['id'], 'cx': dict(t['cx'], **flags), 'events': t['events'], 'decls': t['prog'].decls,
+                     'cfg': t['prog'].cfg} for t in trs]
+        listed = {'knownH': bool(self.known_h), 'knownR': bool(self.known_r)}
+        rejected = core.validate_traces(self.chk, 'ShellRuntimeTrace', 'ShellRuntimeTrace.cfg',
+                                        slim(traces, knownH=False, knownR=False), batch=300)
+        occurrences = []
+        if rejected and any(listed.values()):
+            counted = self.chk.traces
+            again = [by_id[t['id']] for t, _ in rejected]
+            rejected2 = core.validate_traces(self.chk, 'ShellRuntimeTrace', 'ShellRuntimeTrace.cfg', slim(again, **listed), batch=300)
+            self.chk.traces = counted + len(again) - len(rejected2)
+            still = {t['id'] for t, _ in rejected2}
+            occurrences = [(by_id[t['id']], pos) for t, pos in rejected if t['id'] not in still]
+            rejected = rejected2
         for line in getattr(self.chk, 'printed', []):
             if line.startswith('<<"ROUTE-DIFFERS"'):
                 raise core.MachineryError('the routing table computed by the harness differs from ShellStructure.tla RouteOf: ' + line)
+        self.chk.extra['traces_only_the_shipped_rule_explains'] = self.chk.extra.get('traces_only_the_shipped_rule_explains', 0) + len(occurrences)
+        for full, pos in occurrences:
+            evt = full['events'][pos - 1]
+            is_r = evt['cmd']['c'] in ('final', 'register')
+            owner = 'C10' if is_r else 'C04'
+            what = (f'{cmd_line(evt["cmd"])}: observed {json.dumps(evt["obs"])[:200]}: explained only by the shipped rule of known '
+                    f'finding {"R (a failed final construction seals the selector)" if is_r else "H (Deselect ignores its argument)"}')
+            if self.pid == 'C10' and is_r:
+                self.chk.violation(what, {'decls': full['prog'].decls, 'cfg': full['prog'].cfg,
+                                          'commands': [cmd_line(e['cmd']) for e in full['events'][:pos]], 'observed': evt['obs']},
+                                   {'kind': 'final-retry-after-sealed-failure'})
+            elif self.pid == 'C04' and not is_r:
+                pass            # reported with the exact delivery by finish_c04 (STRICT-C04 lines of pass 2)
+            else:
+                self.other.setdefault(owner, []).append(what[:200])
         for num, (trace, pos) in enumerate(rejected[:12]):
             full = by_id[trace['id']]
             exp = core.explain_trace('ShellRuntimeTrace', 'ShellRuntimeTrace.cfg', trace, pos) if num < 4 else None
@@ -645,6 +692,61 @@ def check_c01(tier, seed):
     return chk.finish()
 
 
+STRICT_TU = r'''
+#include <functional>
+#include <type_traits>
+#include <utility>
+struct I { struct { std::function<void()> e; } in; struct { std::function<void()> o; } out; };
+struct J { struct { std::function<void()> e; } in; struct { std::function<void()> o; } out; };
+inline void connect(I& provided, I& required) { provided.out = required.out; required.in = provided.in; }
+inline void connect(J& provided, J& required) { provided.out = required.out; required.in = provided.in; }
+#include "HDR1"
+#include "HDR2"
+#define DETECT(NAME, CALL) \
+  template <typename A, typename B, typename = void> struct NAME : std::false_type {}; \
+  template <typename A, typename B> struct NAME<A, B, decltype(void(CALL(std::declval<A>(), std::declval<B>())))> : std::true_type {};
+DETECT(via1, NS1::ConnectPorts)
+DETECT(via2, NS2::ConnectPorts)
+DETECT(adl, ConnectPorts)
+template <typename A, typename B> constexpr bool any_way() { return via1<A, B>::value || via2<A, B>::value || adl<A, B>::value; }
+// what the strict port types are for: ports of equal semantics can be tied ...
+static_assert(via1<NS1::Sts<I>, NS1::Sts<I>>::value && via1<NS1::Mts<I>, NS1::Mts<I>>::value, "same semantics connect (first prefix)");
+static_assert(via2<NS2::Sts<I>, NS2::Sts<I>>::value && via2<NS2::Mts<I>, NS2::Mts<I>>::value, "same semantics connect (second prefix)");
+// ... and a multi-threaded port can never be tied to a single-threaded one, whichever copy of the support file is used
+#define NEVER(A, B) static_assert(!any_way<A, B>() && !any_way<B, A>(), "MTS tied to STS: " #A " with " #B);
+NEVER(NS1::Mts<I>, NS1::Sts<I>) NEVER(NS2::Mts<I>, NS2::Sts<I>) NEVER(NS1::Mts<I>, NS2::Sts<I>) NEVER(NS2::Mts<I>, NS1::Sts<I>)
+// nor ports of different interfaces
+NEVER(NS1::Sts<I>, NS1::Sts<J>) NEVER(NS1::Mts<I>, NS1::Mts<J>)
+int main() { I a, b; NS1::ConnectPorts(NS1::Sts<I>{a}, NS1::Sts<I>{b}); return 0; }
+'''
+
+
+def strict_typing_check(chk):
+    """C02 at compile time: <prefix>_StrictPort.hh generated for two prefixes; SFINAE detection of every way to call
+    ConnectPorts on every combination of Sts<>/Mts<> of both copies."""
+    core.repo_guard()
+    from dznpy.support_files import strict_port  # pylint: disable=import-outside-toplevel
+    from dznpy.scoping import ns_ids_t  # pylint: disable=import-outside-toplevel
+    work = core.subdir('strict')
+    gens = [strict_port.create_header(None), strict_port.create_header(ns_ids_t(['Other', 'Project']))]
+    for gen in gens:
+        with open(os.path.join(work, gen.filename), 'w', encoding='utf-8') as fil:
+            fil.write(gen.contents)
+    nss = ['::' + '::'.join(g.namespace.items) for g in gens]
+    text = STRICT_TU.replace('HDR1', gens[0].filename).replace('HDR2', gens[1].filename).replace('NS1', nss[0]).replace('NS2', nss[1])
+    path = os.path.join(work, 'strict.cc')
+    with open(path, 'w', encoding='utf-8') as fil:
+        fil.write(text)
+    import subprocess  # pylint: disable=import-outside-toplevel
+    proc = subprocess.run(['g++', '-std=c++17', '-fsyntax-only', '-I', work, path], capture_output=True, text=True, check=False)
+    chk.count(('strict-typing', 1))
+    chk.programs += 1
+    if proc.returncode != 0:
+        first = next((ln for ln in proc.stderr.splitlines() if 'error' in ln), proc.stderr[:200])
+        chk.violation(f'strict port typing: {first[:300]}', {'translation_unit': text, 'compiler_output': proc.stderr[:3000]},
+                      {'kind': 'strict-typing'})
+
+
 def check_c02(tier, seed):
     rule = ('as C01, judged on execution context and queueing: MTS provides in-events queue a closure and block the caller '
             'until the dispatcher step that runs it (ctx = dispatcher thread), MTS requires out-events queue a copy and return '
@@ -654,6 +756,7 @@ def check_c02(tier, seed):
     chk, traces = generic_check('C02', tier, seed, 'events', rule, 24 if tier == 'quick' else 160, 6 if tier == 'quick' else 10,
                                 40 if tier == 'quick' else 80)
     sanitizer_after(chk, traces, tier, seed)
+    strict_typing_check(chk)
     mc_replay(chk, tier, ['plain'])
     return chk.finish()
 
@@ -674,8 +777,6 @@ def check_c10(tier, seed):
             'afterwards the missing binding is supplied and final construction repeated; registration of a new client after '
             'final construction must fail. ShellRuntime.tla prescribes Ok/binding_error/runtime_error and the parent meta.')
     chk, traces = generic_check('C10', tier, seed, 'bindings', rule, 24 if tier == 'quick' else 160, 8 if tier == 'quick' else 16, 0)
-    if known_r():
-        strict_final_pass(chk, None, traces)
     return chk.finish()
 
 
@@ -794,11 +895,16 @@ def fixed_models():
 
 
 def replay_history(job):
+    bad, _ = replay_history_events(job)
+    return bad
+
+
+def replay_history_events(job):
     prog, setup, hist = job
     cmds = setup + [h['cmd'] for h in hist]
     events, problem = run_script(prog, cmds)
     if problem is not None:
-        return [('driver run', 'completes', json.dumps(problem)[:300])]
+        return [('driver run', 'completes', json.dumps(problem)[:300])], None
     for k, step in enumerate(hist):
         got = events[len(setup) + k]['obs']
         exp = dict(step['obs'])
@@ -807,8 +913,8 @@ def replay_history(job):
         got = dict(got, done=sorted(got['done'], key=lambda d: d['who']))
         if exp != got:
             fields = [f for f in exp if exp[f] != got.get(f)]
-            return [(f'step {k + 1} ({cmd_line(step["cmd"])}) differs in {fields}', exp, got)]
-    return []
+            return [(f'step {k + 1} ({cmd_line(step["cmd"])}) differs in {fields}', exp, got)], events
+    return [], events
 
 
 def mc_replay(chk, tier, which, strict=False):
@@ -837,10 +943,19 @@ def mc_replay(chk, tier, which, strict=False):
         chk.sample({'program': name, 'history': [cmd_line(h['cmd']) for h in hists[len(hists) // 2]['hist']]})
         jobs = [(prog, h['setup'], h['hist']) for h in hists]
         nbad = 0
+        eng = Engine(chk, chk.pid, known_h(chk))
         with ThreadPoolExecutor(max_workers=min(core.NCPU, 12)) as pool:
-            for job, bad in zip(jobs, pool.map(replay_history, jobs)):
+            for num, (job, (bad, events)) in enumerate(zip(jobs, pool.map(replay_history_events, jobs))):
                 chk.count(('mc', name, json.dumps([cmd_line(h['cmd']) for h in job[2]])))
                 chk.traces += 1
+                if bad and events is not None and nbad < 6:
+                    # the expectation was computed under the shipped rule of the listed findings: a tree on which a finding
+                    # is repaired differs from it legitimately - the recorded execution itself is judged (two passes)
+                    before = len(chk.violations)
+                    rej = eng.validate([{'id': f'mc-{name}-{num}', 'cx': cx, 'events': events, 'prog': prog}])
+                    if not rej and len(chk.violations) == before:
+                        continue
+                    bad = bad if len(chk.violations) == before else []
                 if bad and nbad < 6:
                     nbad += 1
                     clause, exp, got = bad[0]
